@@ -163,3 +163,20 @@ class Run(object):
             with open(os.path.join(EVIDENCE_DIR, "%s.json" % self.prop), "w") as fp:
                 json.dump(ev, fp, indent=1, default=str, sort_keys=True)
         return (1 if new else 0), lines, ev
+
+
+def import_rules(run, R, module, repo, want, tier="quick", only=None):
+    """Run another property's check in a scratch Run and take over the verdicts of the rules in
+    `want` (ids of that property) under rule R of this run.  `only(construct)` filters constructs."""
+    sub = type(run)(run.prop, tier, write=False, known={"findings": [], "fixed": []})
+    module.run(repo, sub, tier)
+    for v in sub.violations:
+        if v["rule"] in want and (only is None or only(v["construct"])):
+            run.fail(R, "%s:%s" % (v["rule"], v["construct"]), v["message"], v["loc"])
+    failed = set((v["rule"], v["construct"]) for v in sub.violations)
+    kept = [(rr, c) for (rr, c) in sub.nontrivial if rr in want and (only is None or only(c)) and (rr, c) not in failed]
+    run.rules[R]["obligations"] += len(kept)
+    run.rules[R]["discharged"] += len(kept)
+    run.nontrivial.update((R, "%s:%s" % (rr, c)) for (rr, c) in kept)
+    run.samples.extend([dict(s_, rule=R) for s_ in sub.samples if s_.get("rule") in want][:2])
+    return sub
